@@ -689,7 +689,7 @@ func exec_(in In) vh.Result {
 	case "c12":
 		nontrivial = stats["zap_remove"] > 0 && stats["listing"] >= 3
 	}
-	return vh.Result{Term: cf.App("CDisk", cf.List(terms)), Nontrivial: nontrivial, Hist: hist, Direct: direct, Class: class,
+	return vh.Result{Term: cf.App("CDisk", cf.List(terms)), Nontrivial: nontrivial, Hist: hist, Direct: direct, Class: class, Traces: 1,
 		Key: fmt.Sprintf("%d/%d/%d", len(terms), stats["commit"], stats["merge_finish"])}
 }
 
